@@ -25,6 +25,11 @@ EXPLANATION = (
   " (IDX-lookahead) every subscript seq[i + k] has a dominating bound i + k < len(seq);"
   " (ORD-compute) style processors called outside isd.py run after the processors whose results they assert on;"
   " (STATE-alias / STATE-global) no function of the anchored modules mutates a module- or class-level container, rebinds module / class state or mutates a mutable default argument, so a result never depends on earlier calls;"
+  " (RAISE-guard) as in C11;"
+  " (EXC-ruby) ISD generation hands a pruned child list to push_children of element kinds that accept only complete sequences (two known findings);"
+  " (NUL-field) as in C09;"
+  " (TAB-compute-order) as in C13;"
+  " (NUL, arithmetic) as in C11;"
 )
 RULE_TEXT = "per function / class / dereference / extraction site / raise statement"
 UNDECIDED = ["termination", "RecursionError (input-depth recursion exists in from_xml, dfs_iterator, _process_element)", "TypeError / AssertionError guarded by data-dependent invariants",
